@@ -112,6 +112,10 @@ type muxCfg struct {
 	// AddrPort methods); "universal" / "universal-addrport" UniversalUDPMuxDefault (its STUN-intercepting wrapper in
 	// front of the socket); "multi" MultiUDPMuxDefault over one mux per local address.
 	Kind string `json:"kind,omitempty"`
+	// (TCP mux model) Preset events are applied before the search starts and do not count towards the depth; StopRead
+	// adds "client i stops / resumes reading" to the alphabet (with a small write buffer, so that it fills up)
+	Preset   []string `json:"preset,omitempty"`
+	StopRead bool     `json:"stop_read,omitempty"`
 }
 
 // botConnAP adds the netip.AddrPort methods to the socket.
